@@ -12,11 +12,11 @@
 (* (`Drop`, always possible, costs nothing), which bounds the channels at  *)
 (* `Budget` PDUs and makes the graph finite and small.                     *)
 (*                                                                         *)
-(* Every sub-action of Next is a *named, parameterless* definition whose   *)
-(* name  <side>_<Action>[_<kind>]  determines the observable events of the *)
-(* step (tla/graph2nfa.py, table EVENTS); TLC's                            *)
-(*   -dump dot,actionlabels                                                *)
-(* writes exactly these names on the edges of the state graph.             *)
+(* Every sub-action of Next is a named definition  <side>_<Action>[_<kind>] *)
+(* that applies one operator to literal arguments, e.g. Recv("A", "RRQ").   *)
+(* TLC's  -dump dot,actionlabels  writes that operator application (or the *)
+(* name) on the edges of the state graph, and it determines the observable *)
+(* events of the step (tla/graph2nfa.py, function `events`).               *)
 (*                                                                         *)
 (* dicom-rs's documented choices that the model follows:                   *)
 (*  - release() is one call, two protocol steps: put A-RELEASE-RQ, then    *)
@@ -34,9 +34,7 @@
 (***************************************************************************)
 EXTENDS Naturals, Sequences
 
-CONSTANTS Budget,      \* API actions per side
-          Conforming   \* TRUE: "A" behaves as a conforming SCP: after taking an
-                       \* A-RELEASE-RQ its next and only action is the release reply
+CONSTANTS Budget       \* API actions per side
 
 Sides == {"R", "A"}
 Other(s) == IF s = "R" THEN "A" ELSE "R"
@@ -49,9 +47,13 @@ VARIABLES st,    \* st[s]   : protocol state of side s
           chan,  \* chan[s] : PDUs put by s, not yet taken by Other(s)
           left,  \* left[s] : API actions s may still perform
           pend,  \* pend[s] : s has taken an A-RELEASE-RQ it has not answered
-          hist   \* hist[s] : history flags used by the invariants only
+          hist,  \* hist[s] : history flags used by the invariants only
+          conf   \* mode, fixed by the initial state.  TRUE: "A" behaves as a conforming SCP: after
+                 \* taking an A-RELEASE-RQ its next and only action is the release reply.
+                 \* FALSE: both peers are arbitrary users of the association API.
 
-vars == <<st, open, chan, left, pend, hist>>
+vars == <<st, open, chan, left, pend, hist, conf>>
+Conforming == conf
 
 NoHist == [rrq |-> FALSE, rrp |-> FALSE, late |-> FALSE, viol |-> FALSE]
 
@@ -61,6 +63,7 @@ Init == /\ st = [s \in Sides |-> "Est"]
         /\ left = [s \in Sides |-> Budget]
         /\ pend = [s \in Sides |-> FALSE]
         /\ hist = [s \in Sides |-> NoHist]
+        /\ conf \in BOOLEAN
 
 TypeOK == /\ st \in [Sides -> Live \cup Ended]
           /\ open \in [Sides -> BOOLEAN]
@@ -68,6 +71,7 @@ TypeOK == /\ st \in [Sides -> Live \cup Ended]
                               /\ Len(chan[s]) <= Budget
           /\ left \in [Sides -> 0..Budget]
           /\ pend \in [Sides -> BOOLEAN]
+          /\ conf \in BOOLEAN
 
 (***************************************************************************)
 (* Building blocks.  A step of side s is described by: the PDU it puts (or *)
@@ -78,7 +82,8 @@ Step(s, put, take, newst, closes, cost, newpend) ==
     LET o == Other(s)
         out == IF put # "-" /\ open[o] THEN Append(chan[s], put) ELSE chan[s]
         inc == IF closes THEN <<>> ELSE IF take THEN Tail(chan[o]) ELSE chan[o]
-    IN  /\ open[s]
+    IN  /\ UNCHANGED conf
+        /\ open[s]
         /\ left[s] >= cost
         /\ chan' = [chan EXCEPT ![s] = out, ![o] = inc]
         /\ st'   = [st EXCEPT ![s] = newst]
